@@ -34,13 +34,20 @@ GENERATORS = [
     ('gen_buffer.py', 'BufGen.v', 'translate-buffer'),
     ('gen_clo.py', 'CloGen.v', 'translate-clo'),
     ('gen_args.py', 'ArgGen.v', 'translate-args'),
+    ('gen_reader.py', 'ReadGen.v', 'translate-reader'),
 ]
+# properties whose theorems are about the reader model (the others quantify
+# over arbitrary trees / lists / buffers)
+READER_PROPS = ('C01', 'C02', 'C06', 'C07', 'C08', 'C09', 'C10', 'C11', 'C12', 'C13', 'C14', 'C16', 'C17')
 GEN_PROPS = {
-    'translate-tokrules': ('C19', 'C19gen.v'),
-    'translate-buffer': ('C20', 'C20gen.v'),
-    'translate-clo': ('C13', 'C13clogen.v'),
-    'translate-args': ('C18', 'C18gen.v'),
+    'translate-tokrules': (('C19',), 'C19gen.v'),
+    'translate-buffer': (('C20',), 'C20gen.v'),
+    'translate-clo': (('C13',), 'C13clogen.v'),
+    'translate-args': (('C18',), 'C18gen.v'),
+    'translate-reader': (READER_PROPS, 'ReadGen.v'),
 }
+# Props files that are obligations of several properties (not named after one)
+SHARED_PROPS = {'ReadGen.v': READER_PROPS}
 GENERATED_FILES = tuple(g[1] for g in GENERATORS)
 
 
